@@ -488,6 +488,7 @@ func transTVFTypeWithSet(visited SSet, transTV func(TypeVar) FType, ftp FType) F
 			nut := UnionType{Name: ut.Name, Targs: ntargs}
 			nui := UnionTypeInfo{Cases: ncases}
 			updateUniInfo(nut, nui)
+			SSetRemove(visited, uname)
 			return New_FType_FUnion(nut)
 		}))
 	default:
